@@ -225,6 +225,7 @@ func runUniqPath(c *core.Ctx) {
 		msg := "p:" + fn.Params[2].Name()
 		id := msg + ".Event.ID"
 		var get, add *ssa.Call
+		var adds []*ssa.Call
 		for _, ci := range calls(fn) {
 			call, ok := ci.(*ssa.Call)
 			if !ok {
@@ -239,6 +240,7 @@ func runUniqPath(c *core.Ctx) {
 				get = call
 			case "Add":
 				add = call
+				adds = append(adds, call)
 			}
 		}
 		if get == nil || add == nil {
@@ -282,6 +284,18 @@ func runUniqPath(c *core.Ctx) {
 		}
 		if other != nil && (add.Block() == other || add.Block().Dominates(other)) {
 			addOK = false
+		}
+		// no recording of the id outside the not-found edge (an Add before the lookup makes every id "found")
+		for _, a2 := range adds {
+			nf := false
+			for _, g := range an.Guards(fn, a2.Block()) {
+				if an.PathOf(g.V) == found && !g.True {
+					nf = true
+				}
+			}
+			if !nf {
+				addOK = false
+			}
 		}
 		// every event path to the forward passes the Add
 		if fwdEv != nil {
